@@ -94,8 +94,10 @@ class WriteNdarray1D(Contract):
         for key in ("min", "max", "mean"):
             maybe[key] = (ctx.bool("has_" + key, inp=True), SF(ctx.const("old_" + key, F)))
         attrs = new_attrs(ctx, maybe=maybe)
+        # (the existing dataset has the type of the data: appending data of another type converts them on
+        #  storage -- covered by the demonstration of review finding R-C20-2, not by this unit)
         dset0 = new_dataset(ctx, old, attrs=attrs, chunks=(ctx.int("oldchunk0", lo=1),),
-                            dtype=np.dtype("float64"), name="/events/feat")
+                            dtype=dt, name="/events/feat")
         group = new_group(ctx, maybe={"feat": (exists, dset0)}, name="/events")
         # VInv: a cached count of valid values equals the number of non-NaN entries
         counts = {}
